@@ -31,27 +31,29 @@ type tCase struct {
 }
 
 type tObs struct {
-	Case        tCase               `json:"case"`
-	Done        bool                `json:"done"`
-	Blocked     string              `json:"blocked,omitempty"`
-	Incon       string              `json:"inconclusive,omitempty"`
-	POrder      string              `json:"porder"`
-	Status      map[string]int      `json:"status"`             // actor -> HTTP status of its request (-1: transport error, 0: not an HTTP operation)
-	KnownAtPut  []string            `json:"known_at_put"`       // channels whose existence had been acknowledged to a client when PUT's put segment was released
-	PausedAtPut bool                `json:"pause_acked_at_put"` // the topic's pause had been acknowledged (and no unpause requested) at that moment
-	AckedAtExit []string            `json:"acked_at_exit"`      // messages acknowledged when the shutdown was requested
-	KnownAtExit []string            `json:"known_at_exit"`      // channels acknowledged by then
-	TopicExists bool                `json:"topic_exists"`
-	Paused      bool                `json:"paused"`
-	TopicDepth  int64               `json:"topic_depth"` // first settled reading
-	MsgCount    int64               `json:"message_count"`
-	Channels    []string            `json:"channels"`
-	PausedPhase map[string][]string `json:"paused_phase,omitempty"` // channel -> bodies it delivered while the topic was still paused
-	Final       map[string][]string `json:"final"`                  // channel -> every body it delivered (after unpausing)
-	Restarted   bool                `json:"restarted"`
-	Back        map[string][]string `json:"back,omitempty"`       // after graceful shutdown + restart
-	Unexpected  string              `json:"unexpected,omitempty"` // the pump moved when NsqdTopic says it rests (or the reverse)
-	Events      int                 `json:"events"`
+	Case         tCase               `json:"case"`
+	Done         bool                `json:"done"`
+	Blocked      string              `json:"blocked,omitempty"`
+	Incon        string              `json:"inconclusive,omitempty"`
+	POrder       string              `json:"porder"`
+	Status       map[string]int      `json:"status"`         // actor -> HTTP status of its request (-1: transport error, 0: not an HTTP operation)
+	KnownAtStart []string            `json:"known_at_start"` // ... when Start() was called on the topic (situation unstarted)
+	AckedAtStart []string            `json:"acked_at_start"`
+	KnownAtPut   []string            `json:"known_at_put"`       // channels whose existence had been acknowledged to a client when PUT's put segment was released
+	PausedAtPut  bool                `json:"pause_acked_at_put"` // the topic's pause had been acknowledged (and no unpause requested) at that moment
+	AckedAtExit  []string            `json:"acked_at_exit"`      // messages acknowledged when the shutdown was requested
+	KnownAtExit  []string            `json:"known_at_exit"`      // channels acknowledged by then
+	TopicExists  bool                `json:"topic_exists"`
+	Paused       bool                `json:"paused"`
+	TopicDepth   int64               `json:"topic_depth"` // first settled reading
+	MsgCount     int64               `json:"message_count"`
+	Channels     []string            `json:"channels"`
+	PausedPhase  map[string][]string `json:"paused_phase,omitempty"` // channel -> bodies it delivered while the topic was still paused
+	Final        map[string][]string `json:"final"`                  // channel -> every body it delivered (after unpausing)
+	Restarted    bool                `json:"restarted"`
+	Back         map[string][]string `json:"back,omitempty"`       // after graceful shutdown + restart
+	Unexpected   string              `json:"unexpected,omitempty"` // the pump moved when NsqdTopic says it rests (or the reverse)
+	Events       int                 `json:"events"`
 }
 
 // ---- gates with prefix arming ---------------------------------------------------------------------------------
@@ -230,10 +232,14 @@ func replayTopic(tc tCase, dir string) *tObs {
 		}
 		return st
 	}
-	if post("/topic/create?topic=t", nil) != 200 {
+	var unstarted *nsqd.Topic
+	if tc.Situation == "unstarted" {
+		// in NSQD's map, Start() not called yet: where GetTopic is while it asks the nsqlookupds for the topic's channels
+		unstarted = nsqd.VerifUnstartedTopic(nd.N, "t")
+	} else if post("/topic/create?topic=t", nil) != 200 {
 		return fail("create topic")
 	}
-	if tc.Situation != "nochan" {
+	if tc.Situation != "nochan" && tc.Situation != "unstarted" {
 		if post("/channel/create?topic=t&channel=c", nil) != 200 {
 			return fail("create channel")
 		}
@@ -290,7 +296,7 @@ func replayTopic(tc tCase, dir string) *tObs {
 		if post("/pub?topic=t", []byte("m1")) != 200 {
 			return fail("pub m1")
 		}
-	case "nochan":
+	case "nochan", "unstarted":
 		if post("/pub?topic=t", []byte("m1")) != 200 {
 			return fail("pub m1")
 		}
@@ -360,6 +366,18 @@ func replayTopic(tc tCase, dir string) *tObs {
 			a.launch = httpOp("/topic/pause?topic=t", nil)
 		case "UNPAUSE":
 			a.launch = httpOp("/topic/unpause?topic=t", nil)
+		case "START":
+			a.launch = func() {
+				go func() {
+					if unstarted != nil {
+						unstarted.Start()
+					}
+					evmu.Lock()
+					obs.Status[name] = 200
+					evmu.Unlock()
+					close(a.done)
+				}()
+			}
 		case "TDELETE":
 			a.gates = []string{"topic.exit.flag|t#", "topic.exit.pumpStopped|t#"}
 			a.launch = httpOp("/topic/delete?topic=t", nil)
@@ -395,13 +413,21 @@ func replayTopic(tc tCase, dir string) *tObs {
 	// what had been acknowledged to clients at this moment
 	knownNow := func() []string {
 		k := []string{}
-		if tc.Situation != "nochan" {
+		if tc.Situation != "nochan" && tc.Situation != "unstarted" {
 			k = append(k, "c")
 		}
 		for n, a := range actors {
 			if a.op == "GETD" && isDone(a) && statusOf(n) == 200 {
 				k = append(k, "d")
 				break
+			}
+		}
+		if tc.Situation == "unstarted" {
+			for n, a := range actors {
+				if a.op == "GETC" && isDone(a) && statusOf(n) == 200 {
+					k = append(k, "c")
+					break
+				}
 			}
 		}
 		sort.Strings(k)
@@ -474,6 +500,10 @@ func replayTopic(tc tCase, dir string) *tObs {
 		if a.op == "TEXIT" && !a.launched {
 			obs.AckedAtExit = ackedNow()
 			obs.KnownAtExit = knownNow()
+		}
+		if a.op == "START" && !a.launched {
+			obs.AckedAtStart = ackedNow()
+			obs.KnownAtStart = knownNow()
 		}
 		if a.next < len(a.gates) {
 			g.arm(a.gates[a.next], true)
@@ -638,6 +668,23 @@ func replayTopic(tc tCase, dir string) *tObs {
 					obs.Blocked = "operation " + a.op + " never completed after all yield points were released"
 				}
 			}
+		}
+	}
+	// the schedule could not be followed to its end and the topic has not been started yet: it is started now, after
+	// everything else -- what it has accepted so far is owed to every channel there is
+	for _, a := range actors {
+		if a.op == "START" && !a.launched && obs.Blocked == "" {
+			obs.AckedAtStart = ackedNow()
+			obs.KnownAtStart = knownNow()
+			a.launched = true
+			a.launch()
+			select {
+			case <-a.done:
+				a.finished = true
+			case <-time.After(10 * time.Second):
+				obs.Blocked = "Topic.Start never returned"
+			}
+			time.Sleep(50 * time.Millisecond)
 		}
 	}
 	obs.Done = obs.Blocked == ""
